@@ -41,7 +41,7 @@ def initEntries : List InitEntry :=
    ⟨"tanh", true, .native "tanh"⟩,
    ⟨"tau", true, .number 0x401921fb54442d18 0x0000000000000000⟩,
    ⟨"transpose", true, .native "transpose"⟩,
-   ⟨"π", false, .number 0x400921fb54442d18 0x0000000000000000⟩,
-   ⟨"ϕ", false, .number 0x3ff9e3779b97f4a8 0x0000000000000000⟩]
+   ⟨"π", true, .number 0x400921fb54442d18 0x0000000000000000⟩,
+   ⟨"ϕ", true, .number 0x3ff9e3779b97f4a8 0x0000000000000000⟩]
 
 end Calc.Gen
